@@ -9,6 +9,7 @@ import (
 	"testing"
 	"time"
 
+	"github.com/dtn7/dtn7-go/pkg/bpv7"
 	vk "github.com/dtn7/dtn7-go/pkg/verifkit"
 	"github.com/dtn7/dtn7-go/pkg/verifhook"
 	"pgregory.net/rapid"
@@ -458,5 +459,138 @@ func TestVerifC05Directed(t *testing.T) {
 		}
 		cs.Ops = append(cs.Ops, hOp{Op: "up", A: 0}, hOp{Op: "tick"}, hOp{Op: "tick"})
 		c05Body(c, cs)
+	})
+}
+
+
+// ---- status reports in transit about a bundle the node carries ----------------------------------
+
+type c05Rpt struct {
+	Algo       string `json:"algo"`
+	InspectAll bool   `json:"inspect_all"`
+	Status     int    `json:"status"`     // 0 received, 1 forwarded, 2 delivered, 3 deleted
+	AboutHeld  bool   `json:"about_held"` // the report refers to a bundle this node carries (else to an unknown one)
+	PeerEarly  bool   `json:"peer_early"` // a relay is connected when the report arrives
+	ToNode     bool   `json:"to_node"`    // the report is addressed to this node (else in transit)
+	Restart    bool   `json:"restart"`
+}
+
+func TestVerifC05ReportsInTransit(t *testing.T) {
+	u := vk.Unit{Property: "C05", Name: "c05.reports-in-transit",
+		Rule: "exhaustive product: algorithm (epidemic, spray, prophet, dtlsr) x node option 'inspect all bundles' on/off x status report kind (received / forwarded / delivered / deleted) x about a bundle the node carries / an unknown one x a relay connected when the report arrives or later x report in transit / addressed to this node x restart; a data bundle X is accepted and waits; a status-report bundle R about X arrives from a peer; relays appear. Oracle (the report is an accepted bundle like any other): R in transit is pending until a transmission of it succeeded and - under epidemic routing - is offered to every relay that appears; X stays pending too unless the node inspects all bundles and R says X was delivered (the node then drops X by design); every case non-trivial; distinct by tuple"}
+	vk.Enumerate(t, u, true, func(yield func(c05Rpt) bool) {
+		i := 0
+		bools := []bool{false, true}
+		for _, algo := range []string{"epidemic", "spray", "prophet", "dtlsr"} {
+			for _, ia := range bools {
+				for st := 0; st <= 3; st++ {
+					for _, held := range bools {
+						for _, early := range bools {
+							for _, toNode := range bools {
+								for _, rs := range bools {
+									i++
+									if !vk.ShardOwns(i) {
+										continue
+									}
+									if !yield(c05Rpt{algo, ia, st, held, early, toNode, rs}) {
+										return
+									}
+								}
+							}
+						}
+					}
+				}
+			}
+		}
+	}, func(c *vk.Ctx, cs c05Rpt) {
+		c.NonTrivial()
+		s := vfNewSimInspect(c, vfConf(cs.Algo), cs.InspectAll)
+		defer s.close()
+		mk := func(src, dst string, payload string, flags bpv7.BundleControlFlags) bpv7.Bundle {
+			b, err := bpv7.Builder().CRC(bpv7.CRC32).Source(src).Destination(dst).ReportTo("dtn://origin/reports").CreationTimestampNow().Lifetime("1h").
+				BundleCtrlFlags(flags).PayloadBlock([]byte(payload)).Build()
+			if err != nil {
+				s.failf("c05.harness", "bundle: %v", err)
+			}
+			return b
+		}
+		x := mk("dtn://origin/app", "dtn://faraway/inbox", "c05 data bundle X", bpv7.StatusRequestDelivery|bpv7.StatusRequestForward|bpv7.StatusRequestReception|bpv7.StatusRequestDeletion)
+		s.logf("data bundle X received (no peer)")
+		s.receive(x)
+		about := x
+		if !cs.AboutHeld {
+			about = mk("dtn://origin/app", "dtn://faraway/inbox", "another bundle", bpv7.StatusRequestDelivery)
+			about.PrimaryBlock.CreationTimestamp[1] = 77
+		}
+		if cs.PeerEarly {
+			s.logf("relay p1 appears")
+			s.addPeer("p1")
+		}
+		sr := bpv7.NewStatusReport(about, bpv7.StatusInformationPos(cs.Status), bpv7.NoInformation, bpv7.DtnTimeNow())
+		ar, err := bpv7.AdministrativeRecordToCbor(sr)
+		if err != nil {
+			s.failf("c05.harness", "record: %v", err)
+		}
+		rdst := "dtn://origin/reports"
+		if cs.ToNode {
+			rdst = vfNodeName + "app"
+		}
+		r, err := bpv7.Builder().CRC(bpv7.CRC32).BundleCtrlFlags(bpv7.AdministrativeRecordPayload).Source("dtn://faraway/").Destination(rdst).
+			CreationTimestampNow().Lifetime("1h").Canonical(ar).Build()
+		if err != nil {
+			s.failf("c05.harness", "report bundle: %v", err)
+		}
+		s.logf("status report R (status %d about held=%v, to this node=%v) received", cs.Status, cs.AboutHeld, cs.ToNode)
+		s.receive(r)
+		xDropOK := cs.InspectAll && cs.AboutHeld && cs.Status == 2
+		if cs.ToNode && cs.AboutHeld && cs.Status == 2 {
+			xDropOK = true // a report addressed to the node is always inspected
+		}
+		check := func(step string) {
+			okR, okX := false, false
+			for _, snd := range s.sendsSince(0) {
+				if snd.OK && snd.ID == r.ID().String() {
+					okR = true
+				}
+				if snd.OK && snd.ID == x.ID().String() {
+					okX = true
+				}
+			}
+			if !cs.ToNode && !okR && !s.storeHas(r.ID()) {
+				s.failf("c05.lost", "after %s: the status-report bundle R (in transit, accepted from a peer, lifetime 1 h) has not been transmitted successfully yet but is no longer in the store", step)
+			}
+			if !okX && !xDropOK && !s.storeHas(x.ID()) {
+				s.failf("c05.lost", "after %s: the data bundle X has not been transmitted successfully yet but is no longer in the store (report status %d, about X: %v, inspect all: %v)", step, cs.Status, cs.AboutHeld, cs.InspectAll)
+			}
+		}
+		offered := func(id string, peer string, since int) bool {
+			for _, snd := range s.sendsSince(since) {
+				if snd.Peer == peer && snd.ID == id {
+					return true
+				}
+			}
+			return false
+		}
+		check("the report was received")
+		if cs.Restart {
+			s.logf("orderly restart")
+			s.restart()
+			check("the restart")
+		}
+		for _, p := range []string{"p1", "p2", "p3"} {
+			if s.connected(p) {
+				continue
+			}
+			before := s.nSends()
+			s.logf("relay %s appears", p)
+			s.addPeer(p)
+			check("relay " + p + " appeared")
+			if cs.Algo == "epidemic" && !cs.ToNode && s.storeHas(r.ID()) && !offered(r.ID().String(), p, before) {
+				s.failf("c05.epidemic-not-offered", "relay %s is newly connected and the node holds the status-report bundle R, but R was not offered to %s", p, p)
+			}
+			s.logf("retry tick")
+			s.tickPending()
+			check("a retry tick")
+		}
 	})
 }
